@@ -301,6 +301,9 @@ func (ctrl *DefaultController) importLog(ctx context.Context, store Store, log l
 				if payload.Transaction.ID == nil {
 					return nil, NewErrImport(errors.New("transaction without id"))
 				}
+				if _, err := payload.Transaction.Postings.Validate(); err != nil {
+					return nil, NewErrImport(fmt.Errorf("invalid posting: %w", err))
+				}
 				logging.FromContext(ctx).Debugf("Importing transaction %d", *payload.Transaction.ID)
 				var schema *ledger.Schema
 				var err error
@@ -320,6 +323,9 @@ func (ctrl *DefaultController) importLog(ctx context.Context, store Store, log l
 			case ledger.RevertedTransaction:
 				if payload.RevertedTransaction.ID == nil || payload.RevertedTransaction.RevertedAt == nil {
 					return nil, NewErrImport(errors.New("reverted transaction without id or revert date"))
+				}
+				if _, err := payload.RevertTransaction.Postings.Validate(); err != nil {
+					return nil, NewErrImport(fmt.Errorf("invalid posting: %w", err))
 				}
 				logging.FromContext(ctx).Debugf("Reverting transaction %d", *payload.RevertedTransaction.ID)
 				_, _, err := store.RevertTransaction(
